@@ -260,6 +260,61 @@ def stability_functions(chk, t):
     return n
 
 
+def argument_forms(chk, rng):
+    """the wind vector as tuple, list and array: same profiles, the caller's array untouched, a repeated call identical"""
+    from bldfm.pbl_model import vertical_profiles
+
+    n = 0
+    for closure in ("MOST", "MOSTM", "CONSTANT", "OAAHOC"):
+        for k in range(3):
+            um, vm = float(rng.uniform(-4, 4)), float(rng.uniform(1, 4)) * (-1) ** k
+            kw = dict(ustar=0.4, mol=[-40.0, 1e9, 60.0][k], closure=closure)
+            if closure == "OAAHOC":
+                kw["tke"] = 0.8
+            ref = vertical_profiles(8, 5.0, (um, vm), **kw)
+            w = np.array([um, vm], dtype=float)
+            w0 = w.copy()
+            outs = [vertical_profiles(8, 5.0, w, **kw), vertical_profiles(8, 5.0, w, **kw), vertical_profiles(8, 5.0, [um, vm], **kw)]
+            n += 4
+            sc = {"kind": "argument_form", "closure": closure, "wind": [um, vm]}
+            chk.case(json.dumps(sc, sort_keys=True))
+            if not np.array_equal(w, w0):
+                chk.violation("vertical_profiles modifies the wind array it is given: %s became %s" % (w0.tolist(), w.tolist()), sc, klass={"check": "wind_modified"})
+                continue
+            for o in outs:
+                same = np.allclose(np.asarray(o[0]).ravel(), np.asarray(ref[0]).ravel(), rtol=1e-12, atol=0) and all(
+                    np.allclose(np.asarray(p).ravel(), np.asarray(q).ravel(), rtol=1e-12, atol=1e-14) for p, q in zip(o[1], ref[1]))
+                if not same:
+                    chk.violation("vertical_profiles returns different profiles for the same wind given as tuple, list or array / on a repeated call (closure %s)" % closure, sc, klass={"check": "argument_form"})
+                    break
+    return n
+
+
+def interface_levels(chk):
+    """interface.py reads level index nz as the measurement height: for every tower of a configuration, in one process"""
+    from bldfm import parse_config_dict, run_bldfm_single
+
+    n = 0
+    for closure in ("MOST", "MOSTM"):
+        raw = {"domain": {"nx": 8, "ny": 6, "xmax": 160.0, "ymax": 90.0, "nz": 6, "modes": [8, 6], "ref_lat": 50.0, "ref_lon": 11.0},
+               "towers": [{"name": "low", "lat": 50.0003, "lon": 11.0006, "z_m": 4.0}, {"name": "high", "lat": 50.0005, "lon": 11.0011, "z_m": 13.0},
+                          {"name": "mid", "lat": 50.0002, "lon": 11.0016, "z_m": 7.5}],
+               "met": {"ustar": 0.35, "mol": -90.0, "wind_speed": 3.5, "wind_dir": 240.0}, "solver": {"closure": closure, "footprint": True, "precision": "double"}}
+        cfg = parse_config_dict(raw)
+        for order in ([0, 1, 2], [1, 0, 2]):
+            for i in order:
+                tw = cfg.towers[i]
+                res = run_bldfm_single(cfg, tw)
+                zlev = float(np.asarray(res["grid"][2]).ravel()[0])
+                n += 1
+                chk.case(json.dumps(["interface", closure, order, i]))
+                if abs(zlev - tw.z_m) > 1e-9 * tw.z_m:
+                    chk.violation("run_bldfm_single for tower %s (z_m = %g) returns its default level at height %.9g: level index nz is not the measurement height (earlier towers in this process: %s)"
+                                  % (tw.name, tw.z_m, zlev, [cfg.towers[j].name for j in order[: order.index(i)]]), {"kind": "interface_level", "closure": closure, "tower": tw.name, "order": order},
+                                  klass={"check": "interface_level"})
+    return n
+
+
 def main():
     chk = Check("C09")
     t = tier()
@@ -290,6 +345,8 @@ def main():
     chk.extra["configurations_replayed"] = len(pick)
     chk.extra["calls"] = calls
     chk.extra["stability_function_points"] = stability_functions(chk, t)
+    chk.extra["argument_form_calls"] = argument_forms(chk, rng)
+    chk.extra["interface_towers"] = interface_levels(chk)
     chk.traces = len(pick)
     chk.sample(em[0])
     chk.assumptions += [
